@@ -26,6 +26,13 @@ class C13(WrapHarness):
                             if sep == 'U':
                                 c['alpha'] = [' ', 'a', '-', '你'] if q else [' ', 'a', '-', '你', '\n', '́', ')']
                             out.append(c)
+        # sentence templates with one (thorough: also two) inserted sequence(s) at every position
+        tb = {'feat': 'full', 'algo': 'F', 'sep': 'A', 'split': 'H', 'bw': True, 'n': 0, 'ntok': 1, 'wmax': 1 << 20}
+        out += tmpl_spaces(tb, ['short'] if q else ['short', 'sentence', 'longword', 'hyphens'])
+        if not q:
+            out += tmpl_spaces(dict(tb, ntok=2), ['short', 'longword'])
+            out += tmpl_spaces(dict(tb, algo='O'), ['short', 'longword'])
+            out += tmpl_spaces(dict(tb, bw=False, split='N'), ['sentence'])
         return out
 
     def bounds_text(self, tier):
@@ -36,10 +43,14 @@ class C13(WrapHarness):
                 'both algorithms, both separators, break_words on/off' % (3 if q else 4, 2 if q else 3))
 
     def gen_coloured(self, I, cfg):
-        n = I.choose(cfg['n'] + 1, 'len')
         hy = cfg['split'] == 'H'
-        vis = []
-        for i in range(n):
+        if 'tmpl' in cfg:
+            vis = list(gen_tmpl(I, cfg['tmpl'], exclude=(ESC, 13)).chars)
+            n = len(vis)
+        else:
+            n = I.choose(cfg['n'] + 1, 'len')
+            vis = []
+        for i in range(0 if 'tmpl' in cfg else n):
             if 'alpha' in cfg:
                 ch = cfg['alpha'][I.choose(len(cfg['alpha']), 'alpha')]
                 vis.append((ord(ch), utf8len(ord(ch))))
